@@ -123,7 +123,7 @@ UNDECIDED = {
     'C01': ["panic-freedom is decided for the statement and expression evaluators (units statements, expressions; PRINT and user-defined function calls included), the command words and the edit path (unit interp_api), relative to the assumed leaf contracts end_loop (f64 addition total), next_data_element (closure) and the links through borrowing temporaries; for the tokenizer it is decided for the driver, the punctuation / blank / identifier matchers; string-literal, numeral, REM, DATA matchers are undecided; the DATA item parser is proved panic-free (unit data_parser) relative to total String / char primitives", "native stack exhaustion by nested parentheses: no stack model in either tool", "get_line_with_pointer_caret (fmt): undecided"],
     'C03': ["statement dispatch as a whole, the IF false-branch scan's choice of clause, FOR/NEXT arithmetic in doubles (end_loop), DIM/array statements: undecided; decided pieces of the anchored mechanisms only - this is not a differential check against a reference interpreter", "IF/ELSE interplay: decided for GOSUB (a GOSUB directly followed by ELSE does not return in front of it); a FOR in a THEN clause that has an ELSE is not covered"],
     'C05': ["SourceFileAnalyzer::run / analyze_lines / populate_symbol_access_warnings are proved (after normalisations N9, N10) to keep every stored line mapped to the file line that defined it, which makes the `unwrap()` and the `panic!` of the mapping step unreachable; the whole statement and expression analyzer (statement_analyzer.rs, expression_analyzer.rs: 38 functions, unit analyzer_kinds) is proved to keep the stored lines, keep the cursor inside its stored line and record only token positions of stored lines. ASSUMED: the links through the two borrowing temporaries; what an analysis ERROR carries (not the DATA-coercion kind; an explicit position is a token position) - Verus does not model the error conversion done by the `?` operator, so errors that went through `check_number()?` are opaque; the tokenizer as the analyzer calls it (one byte range per token); the symbol table (HashMap entry API) records the position it is given and every warning names a recorded position", "SourceFileAnalyzer::analyze (split / map / collect), one token list per file line, and that the per-line lists carry the tokenizer's ranges: not stated", "that registered token ranges lie within the line on char boundaries is C13's business (partly decided there)"],
-    'C13': ["the complex matchers (keywords via chomp_any_keyword, string literals, numerals, REM, DATA, identifiers) enter as ASSUMED contracts (decline without moving / consume a non-empty in-line stretch / fail without moving with an in-line position); chomp_keyword and chomp_number are checked against them by Kani for bounded input lengths, the others not at all", "character boundaries, ranges ENDING on a non-blank byte for every token kind, REM/DATA extending to the end of their text, and the re-tokenization clause (tokenizing the text of a range yields that one token) are undecided", "remaining_tokens / remaining_tokens_and_ranges (for-loops over `&mut self` as an iterator) are outside Verus; the ordering lemma is stated for two consecutive next() calls"],
+    'C13': ["the complex matchers (keywords via chomp_any_keyword, string literals, numerals, REM, DATA, identifiers) enter as ASSUMED contracts (decline without moving / consume a non-empty in-line stretch / fail without moving with an in-line position); chomp_keyword and chomp_number are checked against them by Kani for bounded input lengths (quick tier), chomp_string and chomp_remark in the thorough tier (ASCII, <= 6 bytes); the DATA matcher not at all", "character boundaries, ranges ENDING on a non-blank byte for every token kind, REM/DATA extending to the end of their text, and the re-tokenization clause (tokenizing the text of a range yields that one token) are undecided", "remaining_tokens / remaining_tokens_and_ranges (for-loops over `&mut self` as an iterator) are outside Verus; the ordering lemma is stated for two consecutive next() calls"],
     'C12': ["identifier scanning with keyword lookahead, numerals, DATA items (String::from_utf8, str::parse, trim) and the composition in Tokenizer::next: undecided, including the `DATA \"a\" :` defect"],
     'C06': ["statement-level agreement (assignment / FOR / NEXT / READ kind checks in statement_analyzer.rs vs statement.rs) and the converse direction need both evaluators executed: undecided", "operand parsing below the unary tier (terms, calls, array subscripts) is proved to only move the cursor forward on its line; the kinds it returns for terms are not specified", "termination of the tier loops is not claimed (exec_allows_no_decreases_clause)"],
     'C08': ["that a REJECTED reply asks again at the very same INPUT statement (and not at a later INPUT of the line) needs a token-level specification of what an lvalue may contain (no INPUT token): not stated - a change that rewinds from further down the line is not reported", "THEN/ELSE interplay: decided as `a resumed INPUT is not left in front of an ELSE` (an ELSE reached as a statement stays UNEXPECTED TOKEN, as the suite requires for multi-statement THEN clauses)", "EXTRA IGNORED / REENTER records are appended by evaluate_input_statement (proved to keep the state well formed) but their exact conditions are not specified here", "reply parsing (parse_data_until_colon, the DATA item parser) is proved never to return an empty list and never to claim more bytes than the text has (unit data_parser); which items it returns is an uninterpreted function of the text"],
